@@ -1131,3 +1131,50 @@ def min_delta(fn, v, base, depth=0, seen=None):
             return None
         return min(ds)
     return None
+
+
+def object_field_paths(fn, root, ops=('load', 'cmpxchg', 'atomicrmw'), store=False):
+    """{field path (tuple of field names, indices dropped) -> first instruction} for accesses to the object `root` points to"""
+    out = {}
+    for ins in fn.order:
+        if store:
+            if ins.op == 'store':
+                ptr = ins.ops[1]
+            elif ins.op == 'call' and (ins.callee or '').startswith(('llvm.memcpy', 'llvm.memset', 'llvm.memmove')):
+                ptr = ins.args[0]
+            else:
+                continue
+        else:
+            if ins.op not in ops:
+                continue
+            ptr = ins.ops[0]
+        ap = fn.ap(ptr)
+        if not ap.fields or not same_value(fn, ap.root, root):
+            continue
+        out.setdefault(tuple(ap.fields), ins)
+    return out
+
+
+def init_covers(ctx, rule, view, init_name, user_names, what):
+    """initialiser completeness: every field of the object that an operation reads (directly or through an inlined helper)
+    is written by the initialiser (a write to an enclosing aggregate covers its members)"""
+    ini = ctx.need_fn(view, init_name)
+    iroot = ini.params[0]['id'] if ini.params else 'a0'
+    written = object_field_paths(ini, iroot, store=True)
+    ctx.ob(rule, '%s: initialiser writes the object' % init_name, len(written) >= 1, 'stores through the object parameter', loc=ini.loc)
+    n = 0
+    seen = set()
+    for un in user_names:
+        u = ctx.need_fn(view, un)
+        uroot = u.params[0]['id'] if u.params else 'a0'
+        for path, ins in sorted(object_field_paths(u, uroot).items()):
+            if path in seen:
+                continue
+            seen.add(path)
+            n += 1
+            cov = [w for w in written if path[:len(w)] == w]
+            short = '.'.join(x.split('.', 1)[-1] for x in path)
+            ctx.ob(rule, '%s sets %s before any operation reads it' % (init_name, short), bool(cov),
+                   '%s: an object placed in recycled (non-zero) memory starts from whatever the previous owner left in a field the '
+                   'initialiser skips' % what, loc=ini.loc, detail='read by %s at %s' % (un, ins.loc))
+    return n
